@@ -445,7 +445,7 @@ package abft
 //@ // frame is extended by exactly this record, other cached lists are untouched (or evicted), nothing is cached anew
 //@ func (*Store).addRoot
 //@   requires rsinv(s) && root != nil
-//@   modifies gKeyValueWriterPutN, gKeyValueWriterPutRecv, gKeyValueWriterPutA0, gKeyValueWriterPutA1, gKeyValueWriterPutR0, s.cache.FrameRoots.items[*], s.cache.FrameRoots.weight, lel[s.cache.FrameRoots.evictList], llen[s.cache.FrameRoots.evictList], lidx[*], lown[*], nEvict, gEvictKey, gEvictVal, all(simplewlru.entry).value, all(simplewlru.entry).weight, rlist(s, frame)[*]
+//@   modifies gKeyValueWriterPutN, gKeyValueWriterPutRecv, gKeyValueWriterPutA0, gKeyValueWriterPutA1, gKeyValueWriterPutR0, gWrOpN, gWrOpKind[*], gWrOpRecv[*], gWrOpKey[*], gWrOpVal[*], gWrOpErr[*], s.cache.FrameRoots.items[*], s.cache.FrameRoots.weight, lel[s.cache.FrameRoots.evictList], llen[s.cache.FrameRoots.evictList], lidx[*], lown[*], nEvict, gEvictKey, gEvictVal, all(simplewlru.entry).value, all(simplewlru.entry).weight, rlist(s, frame)[*]
 //@   ensures  [i1] lruinv(s.cache.FrameRoots) && within(s.cache.FrameRoots)
 //@   ensures  [i2] forall(k interface{}, lhas(s.cache.FrameRoots, k) ==> typeis(k, "idx.Frame") && typeis(lval(s.cache.FrameRoots, k), "[]election.RootAndSlot"))
 //@   ensures  rsinv(s)
@@ -480,10 +480,10 @@ package abft
 //@ // AddRoot registers the root for every frame from the self-parent's frame + 1 up to its own
 //@ viewfunc real (*Store).AddRoot
 //@   requires rsinv(s) && root != nil && root.Frame() < 4294967295 && selfParentFrame < 4294967295
-//@   modifies gKeyValueWriterPutN, gKeyValueWriterPutRecv, gKeyValueWriterPutA0, gKeyValueWriterPutA1, gKeyValueWriterPutR0, s.cache.FrameRoots.items[*], s.cache.FrameRoots.weight, lel[s.cache.FrameRoots.evictList], llen[s.cache.FrameRoots.evictList], lidx[*], lown[*], nEvict, gEvictKey, gEvictVal, all(simplewlru.entry).value, all(simplewlru.entry).weight, allelems(election.RootAndSlot)
+//@   modifies gKeyValueWriterPutN, gKeyValueWriterPutRecv, gKeyValueWriterPutA0, gKeyValueWriterPutA1, gKeyValueWriterPutR0, gWrOpN, gWrOpKind[*], gWrOpRecv[*], gWrOpKey[*], gWrOpVal[*], gWrOpErr[*], s.cache.FrameRoots.items[*], s.cache.FrameRoots.weight, lel[s.cache.FrameRoots.evictList], llen[s.cache.FrameRoots.evictList], lidx[*], lown[*], nEvict, gEvictKey, gEvictVal, all(simplewlru.entry).value, all(simplewlru.entry).weight, allelems(election.RootAndSlot)
 //@   ensures  rsinv(s)
 //@   ensures  [count] gKeyValueWriterPutN == old(gKeyValueWriterPutN) + max(0, root.Frame() - selfParentFrame)
-//@   loop 1 modifies gKeyValueWriterPutN, gKeyValueWriterPutRecv, gKeyValueWriterPutA0, gKeyValueWriterPutA1, gKeyValueWriterPutR0, s.cache.FrameRoots.items[*], s.cache.FrameRoots.weight, lel[s.cache.FrameRoots.evictList], llen[s.cache.FrameRoots.evictList], lidx[*], lown[*], nEvict, gEvictKey, gEvictVal, all(simplewlru.entry).value, all(simplewlru.entry).weight, allelems(election.RootAndSlot)
+//@   loop 1 modifies gKeyValueWriterPutN, gKeyValueWriterPutRecv, gKeyValueWriterPutA0, gKeyValueWriterPutA1, gKeyValueWriterPutR0, gWrOpN, gWrOpKind[*], gWrOpRecv[*], gWrOpKey[*], gWrOpVal[*], gWrOpErr[*], s.cache.FrameRoots.items[*], s.cache.FrameRoots.weight, lel[s.cache.FrameRoots.evictList], llen[s.cache.FrameRoots.evictList], lidx[*], lown[*], nEvict, gEvictKey, gEvictVal, all(simplewlru.entry).value, all(simplewlru.entry).weight, allelems(election.RootAndSlot)
 //@   loop 1 invariant rsinv(s) && selfParentFrame + 1 <= f && f <= max(selfParentFrame + 1, root.Frame() + 1) && gKeyValueWriterPutN == old(gKeyValueWriterPutN) + f - (selfParentFrame + 1)
 //@
 //@ // a new epoch DB is opened with an empty roots cache (what was cached for the previous epoch is purged)
